@@ -45,7 +45,9 @@ def gen_cases(tier, seed):
                 # a chain of n nested directories with one file each: the walker must not keep one handle per level
                 ("deep-tree", [], "deep"), ("deep-tree-deref", ["-L"], "deep"),
                 # a refresh of a tree of very many directories with --backup auto (every destination directory is listed)
-                ("backup-auto-many-dirs", ["--backup", "auto"], "dirs"), ("backup-auto-many-dirs-b", ["--backup", "auto"], "dirs")]
+                ("backup-auto-many-dirs", ["--backup", "auto"], "dirs"), ("backup-auto-many-dirs-b", ["--backup", "auto"], "dirs"),
+                # a file-creation mask that takes write and search permission away from the owner (directories come out 0555 / 0444)
+                ("many-dirs-umask-0222", [], "dirs"), ("many-dirs-umask-0300", ["--no-perms"], "dirs")]
     for vi, (vname, extra, content) in enumerate(variants):
         for driver in ("parblock", "parfile"):
             if tier == "quick" and (vi + (driver == "parfile")) % 2 and content != "sparse":      # (the two drivers treat sparse files quite differently: both, always)
@@ -112,6 +114,8 @@ def run_case(case):
             os.makedirs(os.path.join(b(root), b"dst"))
             shutil.copytree(src, os.path.join(b(root), b"dst", b"src"))
         plan = dict(case["plan"])
+        if "umask-" in case["sname"]:
+            plan["umask"] = int(case["sname"].rsplit("-", 1)[1], 8)
         plan.update({"log_mode": "none", "nofile": 1024, "max_steps": 800 * n + 600000 + (8 * n * n if content == "deep" else 0), "wall_ms": 600000, "cpu_ms": 300000, "pct_horizon": 2000,
                      "sched_cap_us": 2000})
         args = ["--driver", case["driver"], "-w", str(case["workers"]), "--block-size", str(bs)] + case.get("extra", []) + ["-r", "src", "dst"]
